@@ -247,7 +247,7 @@ def run_aggnames(case, ctx):
         for i, kn in enumerate(key_names):
             if not _matches(names[i], kn):
                 return ctx.fail(f"{meth}-names/key", f"output {i} is {names[i]!r}, key name {kn!r}")
-            if key_names.index(kn) == i and key_names.count(kn) == 1 and names[i] != kn:
+            if names[i] != kn and kn not in names[:i]:
                 return ctx.fail(f"{meth}-names/key-renamed-without-need", f"output {i} is {names[i]!r}, key name {kn!r}")
         # perfect matching between the remaining outputs and the expected bases
         outs = names[nk:]
